@@ -13,12 +13,16 @@
 (* closed by its owner while Conn.Close closes every channel).  RECHECK = TRUE is the code: behind the *)
 (* write lock Close looks at `closed` again and returns "closed"; FALSE is the variant without that    *)
 (* second look, where the later closer closes the already cleared queues ("panic").                    *)
+(* SENDER adds a goroutine in SendPackage: read lock, transport write (which may take long), reset, *)
+(* unlock.  RELOCK = TRUE is the pinned code, whose deferred Reset acquires the read lock a second    *)
+(* time: with a closer waiting for the write lock in between, that acquisition and the closer wait    *)
+(* for each other for ever.  RELOCK = FALSE is the code since fix 0b2f1ef.                             *)
 (* External stimuli (peer packets, calls, cancel) are recorded in `hist` for replay on the real code.  *)
 EXTENDS Integers, Sequences, FiniteSets, TLC, Json
 CONSTANTS K,            \* capacity of packageCh
           NPKG,         \* packages the peer sends (response abandoned by the consumer)
           PEERANSWERS,  \* does the peer answer the logout
-          CLOSESIGNAL, GEN, Closers, RECHECK
+          CLOSESIGNAL, GEN, Closers, RECHECK, SENDER, RELOCK
 
 VARIABLES rd,        \* goroutines holding the read lock
           wr,        \* a closer holds the write lock
@@ -26,8 +30,10 @@ VARIABLES rd,        \* goroutines holding the read lock
           closing,   \* close signal raised (only with CLOSESIGNAL)
           closed, pch, peerLeft,
           logoutSent, logoutAnswered,       \* counters: every closer sends its own logout
-          pcR, pcC, pcX, ctxC, result, hist
-vars == <<rd, wr, wwait, closing, closed, pch, peerLeft, logoutSent, logoutAnswered, pcR, pcC, pcX, ctxC, result, hist>>
+          pcR, pcC, pcX, ctxC, result, hist,
+          pcS        \* the sender
+vars == <<rd, wr, wwait, closing, closed, pch, peerLeft, logoutSent, logoutAnswered, pcR, pcC, pcX, ctxC, result, hist, pcS>>
+others == <<wr, wwait, closing, closed, pch, peerLeft, logoutSent, logoutAnswered, pcR, pcC, pcX, ctxC, result, hist>>
 
 H(e) == hist' = IF GEN THEN Append(hist, e) ELSE hist
 NoH == UNCHANGED hist
@@ -36,7 +42,7 @@ CanRLock == ~wr /\ wwait = {}
 Init == /\ rd = {} /\ wr = FALSE /\ wwait = {} /\ closing = FALSE /\ closed = FALSE /\ pch = <<>>
         /\ peerLeft = NPKG /\ logoutSent = 0 /\ logoutAnswered = 0
         /\ pcR = "read" /\ pcC = "idle" /\ pcX = [x \in Closers |-> "idle"] /\ ctxC = "live"
-        /\ result = [c \in {"c"} \cup Closers |-> "none"] /\ hist = <<>>
+        /\ result = [c \in {"c"} \cup Closers |-> "none"] /\ hist = <<>> /\ pcS = "idle"
 
 \* ---------- reader goroutine: one package per packet
 R_Read == /\ pcR = "read" /\ (peerLeft > 0 \/ (PEERANSWERS /\ logoutAnswered < logoutSent))
@@ -115,18 +121,32 @@ X_Mark(x) == /\ pcX[x] = "mark" /\ wr' = FALSE
                 ELSE closed' = TRUE /\ pch' = <<>> /\ Go(x, "done") /\ result' = [result EXCEPT ![x] = "returned"]
              /\ UNCHANGED <<rd, wwait, closing, peerLeft, logoutSent, logoutAnswered, pcR, pcC, ctxC, hist>>
 
-Next == R_Read \/ R_RLock \/ R_Push \/ R_PushAbort \/ R_RUnlock
+\* ---------- sender: SendPackage = QueuePackage ; SendRemainingPackets (read lock held across the transport write)
+S_Start == /\ SENDER /\ pcS = "idle" /\ CanRLock /\ rd' = rd \cup {"S"}
+           /\ pcS' = (IF closed THEN "unlock" ELSE "write") /\ UNCHANGED others
+S_Write == /\ pcS = "write" /\ pcS' = (IF RELOCK THEN "relock" ELSE "reset") /\ UNCHANGED <<rd, others>>     \* the write returns
+S_Relock == /\ pcS = "relock" /\ CanRLock /\ pcS' = "reset" /\ UNCHANGED <<rd, others>>   \* Reset(): RLock once more
+S_Reset == /\ pcS = "reset" /\ pcS' = "unlock" /\ UNCHANGED <<rd, others>>
+S_Unlock == /\ pcS = "unlock" /\ rd' = rd \ {"S"} /\ pcS' = "done" /\ UNCHANGED others
+SNext == S_Start \/ S_Write \/ S_Relock \/ S_Reset \/ S_Unlock
+Keep(A) == A /\ UNCHANGED pcS
+
+MainNext == R_Read \/ R_RLock \/ R_Push \/ R_PushAbort \/ R_RUnlock
      \/ C_Start \/ C_RLock \/ C_Recv \/ C_Ctx \/ C_Closing \/ C_Closed \/ C_Unlock \/ Cancel
      \/ \E x \in Closers : X_Start(x) \/ X_SendRLock(x) \/ X_Send(x) \/ X_NpRLock(x) \/ X_NpRecv(x) \/ X_NpTimeout(x)
                            \/ X_NpClosing(x) \/ X_NpClosed(x) \/ X_Signal(x) \/ X_LockWait(x) \/ X_Lock(x) \/ X_Mark(x)
-Fair == /\ WF_vars(R_Read) /\ WF_vars(R_RLock) /\ WF_vars(R_Push) /\ WF_vars(R_PushAbort) /\ WF_vars(R_RUnlock)
-        /\ WF_vars(C_RLock) /\ WF_vars(C_Recv) /\ WF_vars(C_Ctx) /\ WF_vars(C_Closing) /\ WF_vars(C_Closed) /\ WF_vars(C_Unlock)
+Next == SNext \/ Keep(MainNext)
+Fair == /\ WF_vars(S_Write) /\ WF_vars(S_Relock) /\ WF_vars(S_Reset) /\ WF_vars(S_Unlock)
+        /\ WF_vars(Keep(R_Read)) /\ WF_vars(Keep(R_RLock)) /\ WF_vars(Keep(R_Push)) /\ WF_vars(Keep(R_PushAbort)) /\ WF_vars(Keep(R_RUnlock))
+        /\ WF_vars(Keep(C_RLock)) /\ WF_vars(Keep(C_Recv)) /\ WF_vars(Keep(C_Ctx)) /\ WF_vars(Keep(C_Closing)) /\ WF_vars(Keep(C_Closed)) /\ WF_vars(Keep(C_Unlock))
         /\ \A x \in Closers :
-             /\ WF_vars(X_SendRLock(x)) /\ WF_vars(X_Send(x)) /\ WF_vars(X_NpRLock(x)) /\ WF_vars(X_NpRecv(x)) /\ WF_vars(X_NpTimeout(x))
-             /\ WF_vars(X_NpClosing(x)) /\ WF_vars(X_NpClosed(x))
-             /\ WF_vars(X_Signal(x)) /\ WF_vars(X_LockWait(x)) /\ WF_vars(X_Lock(x)) /\ WF_vars(X_Mark(x))
+             /\ WF_vars(Keep(X_SendRLock(x))) /\ WF_vars(Keep(X_Send(x))) /\ WF_vars(Keep(X_NpRLock(x))) /\ WF_vars(Keep(X_NpRecv(x))) /\ WF_vars(Keep(X_NpTimeout(x)))
+             /\ WF_vars(Keep(X_NpClosing(x))) /\ WF_vars(Keep(X_NpClosed(x)))
+             /\ WF_vars(Keep(X_Signal(x))) /\ WF_vars(Keep(X_LockWait(x))) /\ WF_vars(Keep(X_Lock(x))) /\ WF_vars(Keep(X_Mark(x)))
 Spec == Init /\ [][Next]_vars /\ Fair
 
+\* a send returns as well
+C13_SendReturns == (pcS = "write") ~> (pcS = "done")
 C13_CloseReturns == \A x \in Closers : (pcX[x] = "send_rlock") ~> (pcX[x] \in {"done", "panic"})
 C13_RecvReturnsAfterCancel == (pcC \in {"rlock", "wait"} /\ ctxC = "cancelled") ~> (pcC = "done")
 C13_NoDeliveryAfterClose == closed => pch = <<>>
